@@ -243,6 +243,15 @@ pub fn render_token(tk: &Value) -> String {
                 "pad" => format!(" {} ", w),
                 "word" => "heavy".to_string(),
                 "empty" => String::new(),
+                "exp" => "1e999".to_string(),
+                "negzero" => "-0".to_string(),
+                "hex" => "0x10".to_string(),
+                "plus" => "+5".to_string(),
+                "sep" => "1_000".to_string(),
+                "nan" => "NaN".to_string(),
+                "inf" => "-inf".to_string(),
+                "long" => "7".repeat(400),
+                "uni" => "\u{0663}\u{FF15}".to_string(),
                 _ => "<v>1</v>".to_string(),
             };
             format!("<data{}>{}</data>", key, body)
@@ -269,6 +278,7 @@ pub fn render_token(tk: &Value) -> String {
             _ => "<node id=\"n1".to_string(),
         },
         "BADEND" => "</node>".to_string(),
+        "NU" => "<node id=\"n\u{e9}\u{4e2d}\u{1F600}\"/><edge source=\"n\u{e9}\u{4e2d}\u{1F600}\" target=\"\u{1F600}\"/>".to_string(),
         _ => String::new(),
     }
 }
